@@ -576,6 +576,14 @@ def rule_bounds_binding(ctx: Ctx, rid: str):
                           f'the solver passes {C.fmt(got)} as the evolvent\'s {pname}; expected problem.{fld}',
                           key=f'{rid}::{si.short}::{pname}')
     ctx.floor(rid, 'Evolvent construction sites in the solver', n, 1)
+    rule_box_copied(ctx, rid)
+
+
+def rule_box_copied(ctx: Ctx, rid: str):
+    """The constructor and SetBounds store *copies* of the bound parameters under the same names: the evolvent's box
+    is its own, nobody holding the original arrays can move it afterwards."""
+    e = evo_of(ctx)
+    init = e.cls.methods['__init__']
     # constructor and SetBounds store (copies of) the parameters under the same names
     ex2 = ctx.explorer()
     for fn in (init, e.cls.methods.get('SetBounds')):
@@ -650,6 +658,12 @@ def rule_cube_bound(ctx: Ctx, rid: str):
     r_assigns_before = [st for st in f.node.body if st is not lp and isinstance(st, (ast.Assign, ast.AnnAssign)) and
                         any(isinstance(t, ast.Name) and t.id == rname for t in
                             (st.targets if isinstance(st, ast.Assign) else [st.target])) and st.value is not None]
+    loop_vars = {t.id for t in ast.walk(lp.target) if isinstance(t, ast.Name)}
+    if rname in loop_vars:
+        # for r in <table of steps>: the bound |y_i| + r <= 1/2 then depends on the contents of a precomputed
+        # array (r_j <= 2^-(j+2)), which this template cannot read - undecided, not a violation
+        raise AnalysisError(f'{rid}: {f.short}: the step of the descent is an element of a precomputed table '
+                            f'({ast.unparse(lp.iter)[:60]}); the cube bound is not decided for this form')
     r0 = None
     if r_assigns_before:
         lv = r_assigns_before[-1].value
